@@ -735,9 +735,9 @@ class SP(Robot):
             inverse_jacobian_transpose[:, i] = col
         inverse_jacobian = inverse_jacobian_transpose.T
 
-        #Restore original Values
+        #Restore original Values (a restore is not a new request: never 'correct' it)
         self.IK(top_plate_pos = old_top_plate_transform, 
-                bottom_plate_pos = old_bottom_plate_transform, protect = protect)
+                bottom_plate_pos = old_bottom_plate_transform, protect = True)
         return inverse_jacobian
 
     """ 
